@@ -11,3 +11,4 @@ import Scalibr.Spec.Parsers.Gradle
 import Scalibr.Spec.Parsers.Gemfile
 import Scalibr.Spec.Parsers.Dpkg
 import Scalibr.Spec.Parsers.Requirements
+import Scalibr.Spec.Parsers.RequirementsTree
